@@ -72,7 +72,8 @@ MANIFEST = dict(
          'again, serialised to the binary format and back (also as small databases that exercise the overflow blocks), queried lazily in '
          'random orders, queried with an added database in front of the bundled one, and asked again after the caller changed the answers.',
     note='Still search only: @include, @mapsize, @MaterialExclusion, @AutoVisgroup and @snippet bodies, autovis() helpers, '
-         'FGD.sorted_ents, and the character-level lexing of everything except quoted strings (bare words, punctuation, comments): '
+         'FGD.sorted_ents, and the character-level lexing of everything except quoted strings (bare words, punctuation, comments; the one exception is the bare-word rule for a keyvalue '
+         'default written without quotes, hand model Fmt/FgdBare.v with the test of KVDef.export as a generated object, tied by the near-number search only): '
          'the line and header models work on the token stream of the real Tokenizer and are tied to the exporters/parsers by token-exact '
          'correspondence (also on mutated token lists), not by a translator-generated core (the type text, the kind keyword and the block '
          'builder configuration ARE generated). Helper objects, tags and numbers '
@@ -4135,6 +4136,10 @@ def run(ck: Ck) -> None:
         ck.explain('instance:text_type_table')
         ck.explain('data:io_type_names')
         ck.explain('data:value_type_names')
+    if any('near-number-default' in k for k in keys):
+        # a default written without quotes that is not read back as that one token: the inputs of the bare-default premise
+        ck.explain('instance:text_default_')
+        ck.explain('correspondence:text_lines_')
     if any(k.startswith('helper-args-') or 'helpers' in k or 'blank-helper-argument' in k for k in keys):
         ck.explain('instance:text_helper_args_')
         ck.explain('correspondence:text_header_')
